@@ -135,6 +135,7 @@ impl Ctx {
 	/// The Recoverable oracle on wallet `i` as it is now (freshly opened). Returns failures.
 	fn recoverable(&mut self, i: usize, pre_spendable: Option<u64>) -> Vec<String> {
 		let mut f = vec![];
+		let wallet_dir = format!("{}/{}", self.s.dir, self.s.wallets[i].name);
 		let r = guarded(|| {
 			self.s.with(i, |b, m| -> Result<(), Error> {
 				let outs: Vec<_> = b.iter().collect();
@@ -171,11 +172,26 @@ impl Ctx {
 						fails.push(format!("sent entry {} has {} reserved inputs, {} recorded", t.id, n_in, t.num_inputs));
 					}
 				}
-				// stored transactions: a value or an error, never a crash
+				// stored transactions: a value or an error, never a crash — through the backend and
+				// through the owner API call (by log id and by slate id); a file that exists but is
+				// incomplete is an error, never "no stored transaction"
 				for t in txs.iter() {
 					if let Some(u) = t.tx_slate_id {
 						if t.stored_tx.is_some() {
-							let _ = b.get_stored_tx(&format!("{}", u));
+							let path = format!("{}/wallet_data/saved_txs/{}.grintx", wallet_dir, u);
+							let exists = std::path::Path::new(&path).exists();
+							let r0 = b.get_stored_tx(&format!("{}", u));
+							if exists {
+								if let Ok(None) = r0 {
+									fails.push(format!(
+										"stored transaction file of entry {} exists ({} bytes) but is read back as absent",
+										t.id,
+										std::fs::metadata(&path).map(|m| m.len()).unwrap_or(0)
+									));
+								}
+							}
+							let _ = vharness::libwallet::api_impl::owner::get_stored_tx(&*b, Some(t.id), None);
+							let _ = vharness::libwallet::api_impl::owner::get_stored_tx(&*b, None, Some(&u));
 						}
 					}
 				}
@@ -432,7 +448,8 @@ fn main() {
 			enumerate(&mut c, &mut out, 0, "init_send", mop.clone(), &ops0.clone(), &mut f, true);
 			ops0.push(mop);
 		}
-		let s1 = slate_cell.lock().unwrap().clone().expect("init_send failed");
+		// (what travels between the wallets is the V4 wire form of the slate)
+		let s1 = wire(&slate_cell.lock().unwrap().clone().expect("init_send failed"));
 		let n1 = c.num(s1.id);
 		assert_eq!(n1, 0);
 		// ---- receive_tx on wallet 1 (recipient side enumerated too)
@@ -447,7 +464,7 @@ fn main() {
 			};
 			enumerate(&mut c, &mut out, 1, "receive", json!(null), &[], &mut f, true);
 		}
-		let s2 = reply_cell.lock().unwrap().clone().expect("receive failed");
+		let s2 = wire(&reply_cell.lock().unwrap().clone().expect("receive failed"));
 		// ---- tx_lock_outputs
 		{
 			let tip = c.s.node.height();
